@@ -5,7 +5,8 @@ EXTENDS CombineOps, Integers, Sequences, FiniteSets, TLC, Json
 
 CONSTANTS MaxLen,      \* layouts of length 1..MaxLen
           HookNames, Groups,
-          TwoCtx       \* tasks may carry two contexts
+          TwoCtx,      \* tasks may carry two contexts
+          WithStop     \* tasks may be ones the caller's stopCombineFn rejects (they end the run and stay in the queue)
 
 VARIABLES layout, done
 
@@ -13,12 +14,15 @@ C(b, g) == [b |-> b, g |-> g]
 CtxLists == {<<C("b1", g)>> : g \in Groups} \cup
             (IF TwoCtx THEN {<<C("b1", g1), C("b2", g2)>> : g1 \in Groups, g2 \in Groups} ELSE {})
 \* task kinds: HookRun with contexts (and 0/1 monitor id), a task of another type for a hook, a task without metadata
-Tasks == {[type |-> "HookRun", hook |-> h, meta |-> TRUE, ctxs |-> cs, mon |-> m] : h \in HookNames, cs \in CtxLists, m \in {0, 1}}
-         \cup {[type |-> "Other", hook |-> h, meta |-> TRUE, ctxs |-> <<>>, mon |-> 0] : h \in HookNames}
-         \cup {[type |-> "HookRun", hook |-> "", meta |-> FALSE, ctxs |-> <<>>, mon |-> 0]}
+Stops == IF WithStop THEN BOOLEAN ELSE {FALSE}
+Tasks == {[type |-> "HookRun", hook |-> h, meta |-> TRUE, ctxs |-> cs, mon |-> m, stop |-> st] : h \in HookNames, cs \in CtxLists, m \in {0, 1}, st \in Stops}
+         \cup {[type |-> "Other", hook |-> h, meta |-> TRUE, ctxs |-> <<>>, mon |-> 0, stop |-> FALSE] : h \in HookNames}
+         \cup {[type |-> "HookRun", hook |-> "", meta |-> FALSE, ctxs |-> <<>>, mon |-> 0, stop |-> FALSE]}
 Layouts == UNION {[1..n -> Tasks] : n \in 1..MaxLen}
 
-Same(head, t) == t.meta /\ t.hook = head.hook /\ t.type = head.type
+\* the run of tasks merged into the head: same hook, same type, and not rejected by the caller (stopCombineFn is asked
+\* for same-hook same-type tasks only; the first rejected one ends the run)
+Same(head, t) == t.meta /\ t.hook = head.hook /\ t.type = head.type /\ ~t.stop
 Result(s) ==
   LET head == s[1]
       n == IF head.meta THEN RunLenBy(Same, head, s, 2) ELSE 0
@@ -40,6 +44,10 @@ Spec == Init /\ [][Next]_<<layout, done>>
 KeepsOrder == LET r == Result(layout) IN \A i \in 1..(Len(r.rest) - 1) : r.rest[i] < r.rest[i + 1]
 OnlySameHookAndType == LET r == Result(layout) IN
    \A i \in 2..Len(layout) : (i \notin {r.rest[k] : k \in 1..Len(r.rest)}) => Same(layout[1], layout[i])
+\* a task the caller rejects is never merged, and nothing behind it is
+StopEndsTheRun == LET r == Result(layout) IN
+   \A i \in 2..Len(layout) : (layout[i].stop /\ layout[i].meta /\ layout[i].hook = layout[1].hook /\ layout[i].type = layout[1].type)
+        => \A j \in i..Len(layout) : j \in {r.rest[k] : k \in 1..Len(r.rest)}
 NoGroupRun == LET c == Result(layout).ctxs IN \A i \in 1..(Len(c) - 1) : ~(c[i].g # "" /\ c[i].g = c[i + 1].g)
 
 Emit == done \/ PrintT("@@" \o ToJson([layout |-> layout, res |-> Result(layout)]))
